@@ -539,7 +539,7 @@ func (e *Exec) doCall(common *ssa.CallCommon, fnv Val, recv *Val, args []Val, st
 		} else if ci.fn != nil && ci.fn.Origin() != nil && ci.fn.Origin().Pkg != nil {
 			pkg = ci.fn.Origin().Pkg.Pkg
 		} else {
-			pkg = e.fn.Pkg.Pkg
+			pkg = pkgOf(e.fn)
 		}
 		csc := &Scope{e: e, c: c, cur: pre, old: pre, params: binder, names: map[string]Val{}, pkg: pkg, tracks: map[string]*trackInfo{}}
 		for i, r := range con.Requires {
@@ -578,10 +578,23 @@ func (e *Exec) doCall(common *ssa.CallCommon, fnv Val, recv *Val, args []Val, st
 		csc.results = rets
 		e.applyModifies(con, csc, st)
 		for _, gs := range con.GhostSets {
+			if gs.Post {
+				continue
+			}
 			csc.where = "ghost-set " + gs.Name
 			csc.evalIdent(gs.Name)
 			idx := csc.rvalue(csc.eval(gs.Idx))
 			val := csc.rvalue(csc.eval(gs.Val.E))
+			st.heap = c.hstore(st.heap, "G:"+gs.Name, idx.T, val.T)
+		}
+		for _, gs := range con.GhostSets {
+			if !gs.Post {
+				continue
+			}
+			gsc := &Scope{e: e, c: c, cur: st.heap, old: pre, params: binder, names: map[string]Val{}, pkg: pkg, tracks: map[string]*trackInfo{}, results: rets, where: "ghost-set-post " + gs.Name}
+			gsc.evalIdent(gs.Name)
+			idx := gsc.rvalue(gsc.eval(gs.Idx))
+			val := gsc.rvalue(gsc.eval(gs.Val.E))
 			st.heap = c.hstore(st.heap, "G:"+gs.Name, idx.T, val.T)
 		}
 		// postconditions
@@ -1028,7 +1041,7 @@ func (e *Exec) callModifies(common *ssa.CallCommon, comps map[string]bool) bool 
 		pkg = pkgOf(ci.fn)
 	}
 	if pkg == nil {
-		pkg = e.fn.Pkg.Pkg
+		pkg = pkgOf(e.fn)
 	}
 	dummy := c.newBase()
 	csc := &Scope{e: e, c: c, cur: dummy, old: dummy, params: binder, names: map[string]Val{}, pkg: pkg, tracks: map[string]*trackInfo{}}
@@ -1092,6 +1105,9 @@ func (e *Exec) checkFrameAgainst(con *Contract, sc *Scope, label string, st *Sta
 		}
 	}
 	for _, gs := range con.GhostSets {
+		if gs.Post {
+			continue // targets are named in the return state; pre-existing ones must be listed in modifies
+		}
 		sc.where = "ghost-set " + gs.Name
 		idx := sc.rvalue(sc.eval(gs.Idx))
 		allowedAt["G:"+gs.Name] = append(allowedAt["G:"+gs.Name], idx.T)
@@ -1281,6 +1297,9 @@ func (e *Exec) builtin(b *ssa.Builtin, common *ssa.CallCommon, st *State, pos to
 			}
 			return r
 		}
+	case "real", "imag", "complex":
+		// complex arithmetic is opaque: uninterpreted functions of the operands
+		return e.uninterp("builtin_"+b.Name()+"_"+sanitize(typeString(common.Args[0].Type())), common.Signature().Results().At(0).Type(), args...)
 	case "ssa:wrapnilchk":
 		e.safety("nil", st, not(fmt.Sprintf("(= %s nil)", args[0].T)), "nil receiver in bound method", pos)
 		return args[0]
@@ -1520,6 +1539,10 @@ func (e *Exec) checkFnArgs(ci calleeInfo, all []Val, ord int, st *State, pos tok
 		a := all[i]
 		if a.Fn != nil && len(a.Fn.Bindings) == 0 {
 			aids := []string{shortID(a.Fn.Fn.String())}
+			if strings.HasSuffix(aids[0], "$thunk") {
+				// method expression: go/ssa's thunk forwards its arguments to the method unchanged
+				aids = append(aids, strings.TrimSuffix(aids[0], "$thunk"))
+			}
 			if o := a.Fn.Fn.Origin(); o != nil {
 				aids = append(aids, shortID(o.String()))
 			}
